@@ -38,7 +38,7 @@ REQUIRED_CLASSES = {"threads": ["k:" + k for k in KERNELS]}
 
 @st.composite
 def scen_specs(draw, tier):
-    cs = draw(crystal_specs(max_unit=4, kinds=("hall", "proto", "centred", "p1"), masses=True))
+    cs = draw(crystal_specs(max_unit=4, kinds=("hall", "proto", "centred", "p1"), masses=True, noise=True))
     return {"crystal": cs, "key": draw(keys), "n": draw(st.sampled_from([[1, 1, 1], [2, 1, 1], [1, 1, 2], [2, 2, 1], [2, 2, 2], [3, 1, 1]])),
             "dense_svecs": draw(st.booleans()), "compact": draw(st.booleans()), "nac": draw(st.sampled_from(["none", "wang", "gonze"])),
             "mesh": draw(st.lists(st.integers(2, 4), min_size=3, max_size=3)), "ms": draw(st.booleans()),
@@ -375,6 +375,28 @@ def ref_dos(args):
     return {0: out}, 1e-12
 
 
+def ref_gsv(name, args, after):
+    """Smallest-vector kernels against exhaustive image enumeration (oracle of C05)."""
+    from oracles.lattice import TooExpensive
+    from props.c05 import check_tables
+
+    dense = name.endswith("dense")
+    sfr, pfr, red_T, tmi_T = args[2], args[3], args[5], args[6]
+    symprec = args[-1]
+    if dense and args[7] == 1:
+        return None  # first phase only counts
+    red = red_T.T
+    tmi = tmi_T.T.astype(float)
+    L = np.linalg.inv(tmi) @ red  # supercell basis vectors (rows)
+    ps, pp = sfr @ tmi, pfr @ tmi
+    tabs = (after[0], after[1])
+    try:
+        err, mm = check_tables(L, ps, pp, tabs if dense else None, None if dense else tabs, symprec)
+    except TooExpensive:
+        return None
+    return err
+
+
 def run_reference(spec):
     from vlib.recorder import Recorder
 
@@ -397,6 +419,13 @@ def run_reference(spec):
                 if found:
                     return Out(ok=False, msg="compute_permutation returned not-found although every atom has exactly one partner within symprec")
                 continue
+        elif name.startswith("gsv_set_smallest_vectors"):
+            err = ref_gsv(name, args, after)
+            if err:
+                return Out(ok=False, msg="kernel %s: %s" % (name, err))
+            checked += 1
+            classes.append("ref:" + name)
+            continue
         elif name == "tetrahedra_frequencies":
             want, tol = ref_tetrahedra_frequencies(args)
         elif name == "tetrahedron_method_dos":
